@@ -16,44 +16,11 @@ from spec import vocab as V
 from contracts.apply import A, B, cid, cols, eng, is_marker, truthful_cols, reg_cls
 from contracts.iteration import payload_heap, payload_inv, height
 
-HeapSort = z3.ArraySort(smt.Ref, smt.Ref)
-ready = z3.Function("ready", HeapSort, smt.Ref, smt.BoolS)  # the relation's engine can evaluate it without a Processor
-
-
-def trivial(c, r):
-    mx = A(c, "BaseRelation", "max_rows")(r)
-    return z3.Or(A(c, "BaseRelation", "is_join_identity")(r), mx == smt.OptInt.oi_some(z3.IntVal(0)))
-
-
-def ready_axioms(ex):
-    class _C:
-        pass
-    c = _C()
-    c.ex = ex
-    H = z3.Const("H", HeapSort)
-    r = z3.Const("r", smt.Ref)
-    has = z3.Select(H, r) != smt.NONE
-    ut, mt = A(c, "UnaryOperationRelation", "target"), A(c, "MarkerRelation", "target")
-    bl, br = A(c, "BinaryOperationRelation", "lhs"), A(c, "BinaryOperationRelation", "rhs")
-    t = smt.typ(r)
-
-    def ax(cond, body):
-        return z3.ForAll([H, r], z3.Implies(cond, ready(H, r) == body), patterns=[ready(H, r)])
-
-    return [
-        ax(t == cid(c, "LeafRelation"), z3.BoolVal(True)),
-        ax(t == cid(c, "UnaryOperationRelation"), z3.Or(trivial(c, r), ready(H, ut(r)))),
-        ax(t == cid(c, "BinaryOperationRelation"), z3.Or(trivial(c, r), z3.And(ready(H, bl(r)), ready(H, br(r))))),
-        ax(t == cid(c, "Transfer"), z3.Or(trivial(c, r), has)),
-        ax(t == cid(c, "Materialization"), z3.Or(trivial(c, r), has)),
-        ax(z3.And(is_marker(c, r), t != cid(c, "Transfer"), t != cid(c, "Materialization")), z3.Or(trivial(c, r), has, ready(H, mt(r)))),
-    ]
+from contracts.apply import ready, extends, trivial_z as trivial  # noqa: E402
 
 
 def register(reg):
     reg.load("iteration")
-    if ready_axioms not in reg.global_axioms:
-        reg.global_axioms.append(ready_axioms)
     P = ("C07", "C10")
     TRel = TRefT(reg_cls(reg, "BaseRelation"))
     TPay = TRefT(None, True)
@@ -72,11 +39,19 @@ def register(reg):
 
     # ---- engine payload factories for trivial relations
     k = reg.contract("_engine:Engine.get_join_identity_payload", virtual=True, assumed=True, properties=P, result_td=TPay,
-                     note="engine hook: None or a payload holding the single empty row")
-    k.ens("identity-payload", lambda c: B(z3.Or(c.result.z == smt.NONE, V.content(c.result.z) == V.RUNIT)))
+                     note="engine hook: a payload holding the single empty row (sql/_engine.py:188, iteration/_engine.py:113; the base-class default "
+                          "returns None and is outside the property's engines)")
+    k.ens("identity-payload", lambda c: B(z3.And(c.result.z != smt.NONE, V.content(c.result.z) == V.RUNIT)))
     k = reg.contract("_engine:Engine.get_doomed_payload", virtual=True, assumed=True, properties=P, result_td=TPay,
-                     note="engine hook: None or a payload holding no rows over the given columns")
-    k.ens("doomed-payload", lambda c: B(z3.Or(c.result.z == smt.NONE, V.content(c.result.z) == V.REMPTY(c.columns.z))))
+                     note="engine hook: a payload holding no rows over the given columns (sql/_engine.py:194, iteration/_engine.py:117; base default None is out of scope)")
+    k.ens("doomed-payload", lambda c: B(z3.And(c.result.z != smt.NONE, V.content(c.result.z) == V.REMPTY(c.columns.z))))
+
+    # SQL Select markers re-conform their target (subject of C17): assumed here
+    k = reg.contract("sql._select:Select.reapply", assumed=True, properties=P, result_td=TRel, note="sql.Select.reapply: C17")
+    k.ens("same-rows-columns-engine-and-readiness",
+          lambda c: B(z3.And(V.rows(c.result.z) == V.rows(c.target.z), cols(c, c.result.z) == cols(c, c.target.z), eng(c, c.result.z) == eng(c, c.target.z),
+                             truthful_cols(c, c.result.z), z3.Implies(ready(payload_heap(c), c.target.z), ready(payload_heap(c), c.result.z)))))
+    k.raises("EngineError", None)
 
     # ---- _process_recursive
     k = reg.contract("_processor:Processor._process_recursive", properties=P, modifies=("BaseRelation.payload",),
@@ -84,9 +59,18 @@ def register(reg):
     k.req("payloads-hold-their-relations-rows", lambda c: B(payload_inv(c, payload_heap(c))))
     k.req("relation-columns-truthful", lambda c: B(truthful_cols(c, c.original.z)))
     lf = z3.Const("lf", smt.Ref)
-    k.req("leaves-carry-payloads", lambda c: B(z3.ForAll([lf], z3.Implies(smt.typ(lf) == cid(c, "LeafRelation"), z3.Select(payload_heap(c), lf) != smt.NONE),
-                                                         patterns=[z3.Select(payload_heap(c), lf)])))
+    leaves_ok = lambda c, H: z3.ForAll([lf], z3.Implies(smt.typ(lf) == cid(c, "LeafRelation"), z3.Select(H, lf) != smt.NONE), patterns=[z3.Select(H, lf)])  # noqa: E731
+    unalloc_empty = lambda c, H, clk: z3.ForAll([lf], z3.Implies(z3.And(smt.born(lf) >= clk, smt.typ(lf) != cid(c, "LeafRelation")), z3.Select(H, lf) == smt.NONE),  # noqa: E731
+                                                patterns=[z3.Select(H, lf)])
+    k.req("leaves-carry-payloads", lambda c: B(leaves_ok(c, payload_heap(c))))
+    k.req("objects-not-yet-allocated-have-no-payload", lambda c: B(unalloc_empty(c, payload_heap(c), c.entry_clock)))
+    tr = z3.Const("tr", smt.Ref)
+    dest = lambda c: A(c, "Transfer", "destination")  # noqa: E731
+    mtarget = lambda c: A(c, "MarkerRelation", "target")  # noqa: E731
+    crossing = lambda c, clk: z3.ForAll([tr], z3.Implies(z3.And(smt.typ(tr) == cid(c, "Transfer"), smt.born(tr) < clk), dest(c)(tr) != eng(c, mtarget(c)(tr))),  # noqa: E731
+                                        patterns=[dest(c)(tr)])
     res = lambda c: c.result.items[0].z  # noqa: E731
+    persisted = lambda c: c.result.items[1].z  # noqa: E731
     H0 = lambda c: payload_heap(c, True)  # noqa: E731
     H1 = lambda c: payload_heap(c)  # noqa: E731
     r = z3.Const("r", smt.Ref)
@@ -94,15 +78,40 @@ def register(reg):
           lambda c: B(z3.And(cols(c, res(c)) == cols(c, c.original.z), eng(c, res(c)) == eng(c, c.original.z), V.rows(res(c)) == V.rows(c.original.z), truthful_cols(c, res(c)))))
     k.ens("result-can-be-evaluated-by-its-engine-alone", lambda c: B(ready(H1(c), res(c))))
     k.ens("payloads-still-hold-their-relations-rows", lambda c: B(payload_inv(c, H1(c))))
+    k.ens("leaves-still-carry-payloads", lambda c: B(leaves_ok(c, H1(c))))
+    k.ens("objects-not-yet-allocated-still-have-no-payload", lambda c: B(unalloc_empty(c, H1(c), c.exit_clock)))
+    k.ens("keeps-every-existing-payload", lambda c: B(extends(H0(c), H1(c))))
     k.ens("payloads-are-never-replaced",
-          lambda c: B(z3.ForAll([r], z3.Implies(z3.And(smt.born(r) <= 0, z3.Select(H0(c), r) != smt.NONE), z3.Select(H1(c), r) == z3.Select(H0(c), r)), patterns=[z3.Select(H1(c), r)])))
+          lambda c: B(z3.ForAll([r], z3.Implies(z3.And(c.pre_existing(r), z3.Select(H0(c), r) != smt.NONE), z3.Select(H1(c), r) == z3.Select(H0(c), r)), patterns=[z3.Select(H1(c), r)])))
     k.ens("transfers-of-the-input-tree-never-gain-payloads",
-          lambda c: B(z3.ForAll([r], z3.Implies(z3.And(smt.typ(r) == cid(c, "Transfer"), smt.born(r) <= 0), z3.Select(H1(c), r) == z3.Select(H0(c), r)), patterns=[z3.Select(H1(c), r)])))
-    k.ens("only-nodes-of-this-tree-or-new-nodes-change",
-          lambda c: B(z3.ForAll([r], z3.Implies(z3.And(height(r) > height(c.original.z), smt.born(r) <= 0), z3.Select(H1(c), r) == z3.Select(H0(c), r)), patterns=[z3.Select(H1(c), r)])))
+          lambda c: B(z3.ForAll([r], z3.Implies(z3.And(smt.typ(r) == cid(c, "Transfer"), c.pre_existing(r), dest(c)(r) != eng(c, mtarget(c)(r))),
+                                                z3.Select(H1(c), r) == z3.Select(H0(c), r)), patterns=[z3.Select(H1(c), r)])))
+    above_unchanged = lambda c: z3.ForAll([r], z3.Implies(z3.And(height(r) > height(c.original.z), c.pre_existing(r)), z3.Select(H1(c), r) == z3.Select(H0(c), r)),  # noqa: E731
+                                          patterns=[z3.Select(H1(c), r)])
+    # the one case the contracts cannot decide: a materialization re-created over an existing node that the recursion
+    # returned in place of the target (bounded stand-in S-C07-frame-rebuilt-materialization)
+    rebuilt = lambda c: z3.And(smt.typ(c.original.z) == cid(c, "Materialization"), c.pre_existing(res(c)), res(c) != c.original.z)  # noqa: E731
+    k.ens("only-nodes-of-this-tree-or-new-nodes-change", lambda c: B(z3.Implies(z3.Not(rebuilt(c)), above_unchanged(c))))
+    k.ens("only-nodes-of-this-tree-change-when-a-materialization-resolves-to-an-existing-node", lambda c: B(z3.Implies(rebuilt(c), above_unchanged(c))))
+    k.ens("only-materializations-and-same-engine-markers-gain-payloads",
+          lambda c: B(z3.ForAll([r], z3.Implies(z3.And(c.pre_existing(r), smt.typ(r) != cid(c, "Materialization"),
+                                                       z3.Not(z3.And(is_marker(c, r), eng(c, r) == eng(c, mtarget(c)(r))))),
+                                                z3.Select(H1(c), r) == z3.Select(H0(c), r)), patterns=[z3.Select(H1(c), r)])))
+    k.ens("a-returned-materialization-has-its-payload",
+          lambda c: B(z3.Implies(smt.typ(res(c)) == cid(c, "Materialization"), z3.Or(z3.Select(H1(c), res(c)) != smt.NONE, trivial(c, res(c))))),
+          hints=lambda c: [B(ready(H1(c), res(c)))])
+    k.ens("a-persisted-result-carries-the-payload",
+          lambda c: B(z3.Implies(persisted(c), z3.Select(H1(c), res(c)) != smt.NONE)))
     k.ens("a-processed-materialization-has-its-payload",
-          lambda c: B(z3.Implies(smt.typ(c.original.z) == cid(c, "Materialization"), z3.Or(z3.Select(H1(c), c.original.z) != smt.NONE, trivial(c, c.original.z)))))
+          lambda c: B(z3.Implies(smt.typ(c.original.z) == cid(c, "Materialization"), z3.Select(H1(c), c.original.z) != smt.NONE)))
     k.raises("EngineError", None)
     k.raises("ColumnError", None)
     k.raises("RelationalAlgebraError", None)
     k.raises("NotImplementedError", None)
+
+    def not_a_plain_marker(c, _):
+        """F13's witness class is 'the processed node is a plain marker (not a transfer or materialization)'."""
+        t = smt.typ(c.original.z)
+        return B(z3.Or(z3.Not(is_marker(c, c.original.z)), t == cid(c, "Transfer"), t == cid(c, "Materialization")))
+
+    reg.witness_classes["F13-plain-marker"] = not_a_plain_marker
